@@ -77,6 +77,31 @@ def gen_shared_frame_case(rng):
     return {'cfg': {'nquads': False, 'mode': 'NO'}, 'sources': [{'key': 'S0', 'kind': rng.choice(['frame', 'frame', 'pylist']), 'cols': ['id', 'c1', 'c2', 'c3'], 'rows': rows}], 'doc': doc}
 
 
+def gen_multi_join_case(rng):
+    """one child triples map with several referencing object maps to the same parent: same predicate and different join conditions
+    (rules that differ in their join conditions only), or different predicates where one join needs more parent columns than the other
+    and the extra parent column holds NULLs"""
+    def tm(k, v, ck='iri', tt=''):
+        return {'k': k, 'v': v, 'ck': ck, 'tt': tt}
+    EX = mapcase.EX
+    ids = ['1', '2', '3', '4']
+    crow = lambda i: [str(i + 1), rng.choice(ids), rng.choice(ids + [None]), rng.choice(['x', 'y', None])]
+    prow = lambda i: [ids[i], rng.choice(['x', 'y', None]), 'n%d' % i]
+    child = {'key': 'S0', 'kind': 'csv', 'cols': ['id', 'mother', 'father', 'tag'], 'rows': [crow(i) for i in range(rng.choice([2, 3, 5]))]}
+    parent = {'key': 'S1', 'kind': 'csv', 'cols': ['pid', 'tag', 'name'], 'rows': [prow(i) for i in range(rng.choice([2, 3, 4]))]}
+    same_pred = rng.random() < 0.5
+    j1 = [['mother', 'pid']] + ([['tag', 'tag']] if rng.random() < 0.6 else [])
+    j2 = [['father', 'pid']] if same_pred or rng.random() < 0.5 else [['mother', 'pid']]
+    joins = [j1, j2]
+    rng.shuffle(joins)
+    poms = [{'preds': [tm('const', EX + 'p/parent' if same_pred else EX + 'p/rel%d' % i)],
+             'objs': [{'m': {'k': 'parent', 'v': EX + 'tm/P', 'ck': 'iri', 'tt': ''}, 'lang': None, 'dt': None, 'joins': j}], 'graphs': []} for i, j in enumerate(joins)]
+    doc = [{'id': EX + 'tm/C', 'src': 'S0', 'nonasserted': False, 'subj': tm('templ', EX + 'c/{id}'), 'sjoins': [], 'classes': [], 'sgraphs': [], 'poms': poms},
+           {'id': EX + 'tm/P', 'src': 'S1', 'nonasserted': False, 'subj': tm('templ', EX + 'p/{pid}'), 'sjoins': [], 'classes': [],
+            'sgraphs': [], 'poms': [{'preds': [tm('const', EX + 'p/name')], 'objs': [{'m': tm('ref', 'name'), 'lang': None, 'dt': None, 'joins': []}], 'graphs': []}]}]
+    return {'cfg': {'nquads': rng.random() < 0.5, 'mode': 'NO'}, 'sources': [child, parent], 'doc': doc}
+
+
 def gen_graph_only_null_case(rng):
     """data-dependent graph maps whose columns are used by nothing else, with NULLs in them, in both output formats: a row without a graph value
     gives no statement under every partitioning mode (also when the output format does not show the graph)"""
@@ -105,6 +130,7 @@ def run(ctx, res):
     cases += [gen_graph_only_null_case(ctx.rng) for _ in range(ctx.scale(10, 100))]
     cases += [gen_working_col_case(ctx.rng) for _ in range(ctx.scale(10, 100))]
     cases += [gen_shared_frame_case(ctx.rng) for _ in range(ctx.scale(10, 100))]
+    cases += [gen_multi_join_case(ctx.rng) for _ in range(ctx.scale(14, 120))]
     batch = family.Batch(ctx)
     per_mode = {m: batch.run(cases, cfg_override={'mode': m}, want_spec=False) for m in MODES}
     for i, case in enumerate(cases):
